@@ -15,8 +15,8 @@ FUNCTIONS = ["wannierberri.w90files.bkvectors.BKVectors.find_G_and_neighbours", 
 BOUNDS = dict(
     quick=dict(neighbours="meshes up to 3x2x2; k-point order = symbolic permutation (z3 integers); b-vectors = symbolic integers in the search box [-2N,2N]; "
                           "1 symbolic b with one irreducible k at an enumerated position (all meshes), 2 b's x 2 k's (meshes <=4 points), all k's (2 points)",
-               weights="1..3 shells; shells from 6 concrete lattices (sc, fcc, bcc, hexagonal, orthorhombic, triclinic) or fully symbolic +-b pairs; "
-                       "LAPACK svd output = unconstrained fresh atoms (and, second variant, u=1, s=1, v fresh, which still reaches every weight vector); bk_complete_tol symbolic in [1e-8,1e-3]",
+               weights="complete sets of linearly independent shells (harness-selected, shortest first) of 6 concrete lattices (sc, fcc, bcc, hexagonal, orthorhombic, triclinic), also with the last shell dropped, with every shell stretched by a symbolic factor, or one fully symbolic +-b shell; "
+                       "LAPACK svd output = unconstrained fresh atoms u, s, vh (one-shell sets: sc, fcc, bcc) or u=1, s=1, vh fresh, which still reaches every weight vector (all sets); bk_complete_tol symbolic in [1e-8,1e-3]",
                shells="6 lattices x meshes (1,1,1),(2,2,2),(2,2,1)/(3,2,1): kmesh_tol symbolic in [1e-9,1e-5]"),
     thorough=dict(neighbours="meshes up to 4x3x2, 2 b's x 2 k's up to 6 points", weights="as quick, up to 4 shells", shells="as quick plus (3,3,3),(4,4,2)"))
 EXPLANATION = ("(a) The real find_G_and_neighbours runs on a k-point list whose order is a symbolic permutation of the mesh and on symbolic integer b-vectors; z3 (linear integer "
@@ -169,26 +169,52 @@ class Np22a(NpProxy):
 
 
 def sym_mesh_order(mesh):
-    """k_int[j] = coordinates of the mesh point with index p_j, p a symbolic permutation; the (implied) surjectivity clauses are stated explicitly to help the solver"""
+    """k_int[j] = integer coordinates of the j-th listed k-point: nk pairwise distinct points of the N1xN2xN3 box (= any ordering of the complete mesh).
+    The surjectivity clauses (every mesh point is somewhere in the list) follow by counting and are stated explicitly to help the solver."""
     nk = int(np.prod(mesh))
-    p = [z3.Int(f"p{j}") for j in range(nk)]
-    ass = [z3.And(x >= 0, x < nk) for x in p] + ([z3.Distinct(*p)] if nk > 1 else [])
-    ass += [z3.Or(*[x == v for x in p]) for v in range(nk)]
-    N1, N2, N3 = mesh
+    pts = list(itertools.product(*[range(n) for n in mesh]))
+    c = [[z3.Int(f"k{j}_{a}") for a in range(3)] for j in range(nk)]
+    ass = [z3.And(c[j][a] >= 0, c[j][a] < mesh[a]) for j in range(nk) for a in range(3)]
+    ass += [z3.Or(*[c[i][a] != c[j][a] for a in range(3)]) for i in range(nk) for j in range(i)]
+    ass += [z3.Or(*[z3.And(*[c[j][a] == v[a] for a in range(3)]) for j in range(nk)]) for v in pts]
     k = np.empty((nk, 3), dtype=object)
     for j in range(nk):
-        c = [z3.Int(f"k{j}_{a}") for a in range(3)]
-        ass += [z3.And(c[a] >= 0, c[a] < mesh[a]) for a in range(3)] + [p[j] == c[0] * (N2 * N3) + c[1] * N3 + c[2]]
         for a in range(3):
-            k[j, a] = SymI(c[a])
-    return p, ass, k.view(IArr)
+            k[j, a] = SymI(c[j][a])
+    return c, ass, k.view(IArr)
+
+
+def residue_lemmas(rec, mesh, kint, bk, kk, nnb):
+    """definitional extension r = (k+b) mod N (linear: k+b = r + N q, 0<=r<N) and, for every listed k-point j, the lemma
+    ((k+b-k_j) % N == 0)  <=>  OR_v (k_j == v and r == v); each lemma is proved by the solver from the definitions alone and then added as a fact"""
+    from symx import smt
+    nk = kint.shape[0]
+    defs, lems = [], []
+    bad = 0
+    for ik in kk:
+        for ib in range(nnb):
+            for a in range(3):
+                N = mesh[a]
+                t = kint[ik, a] + bk[ib, a]
+                r, q = z3.Int(f"r{ik}_{ib}_{a}"), z3.Int(f"q{ik}_{ib}_{a}")
+                d = [r >= 0, r < N, t.t == r + N * q, z3.Or(*[r == v for v in range(N)])]
+                defs += d
+                mine = []
+                for j in range(nk):
+                    kj = kint[j, a]
+                    mine.append((((t - kj) % N) == 0).t == z3.Or(*[z3.And(kj.t == v, r == v) for v in range(N)]))
+                v = smt.check_fact("lemma", z3.And(*mine), d + [z3.And(kint[j, a].t >= 0, kint[j, a].t < N) for j in range(nk)], 60000)
+                bad += v.status != "unsat"
+                lems += mine
+    return defs + lems, bad
 
 
 def case_neighbours(rec, mesh, nnb, kptirr):
     shadow([BK], Np22a(), print=lambda *a, **k: None)
     mesh = tuple(mesh)
     nk = int(np.prod(mesh))
-    p, ass, kint = sym_mesh_order(mesh)
+    pts = list(itertools.product(*[range(n) for n in mesh]))
+    c, ass, kint = sym_mesh_order(mesh)
     b = [[z3.Int(f"b{i}_{a}") for a in range(3)] for i in range(nnb)]
     for i in range(nnb):
         for a in range(3):
@@ -202,8 +228,11 @@ def case_neighbours(rec, mesh, nnb, kptirr):
         for a in range(3):
             kred[j, a] = kint[j, a] / mesh[a]
     bk, kred = bk.view(IArr), kred.view(IArr)
-    ints = p + [x for r in b for x in r]
+    ints = [x for r in c for x in r] + [x for r in b for x in r]
     mp = np.array(mesh)
+    kk_all = list(range(nk)) if kptirr is None else list(kptirr)
+    lem, nbad = residue_lemmas(rec, mesh, kint, bk, kk_all, nnb)
+    ass += lem
 
     def body(rec):
         state = dict(neg=None)
@@ -212,8 +241,10 @@ def case_neighbours(rec, mesh, nnb, kptirr):
             vals = int_model(list(Ctx.cur.pc) + ([state["neg"]] if state["neg"] is not None else []), ints)
             if vals is None:
                 return dict(test="neighbours", error="no integer model")
-            return dict(test="neighbours", mesh=list(mesh), order=vals[:nk], b=[vals[nk + 3 * i: nk + 3 * i + 3] for i in range(nnb)], kptirr=kptirr)
+            order = [pts.index(tuple(vals[3 * j: 3 * j + 3])) for j in range(nk)]
+            return dict(test="neighbours", mesh=list(mesh), order=order, b=[vals[3 * nk + 3 * i: 3 * nk + 3 * i + 3] for i in range(nnb)], kptirr=kptirr)
         rec.witness = witness
+        rec.concrete("residue lemmas proved from their definitions", nbad == 0, key="C22 harness lemma not proved")
         try:
             G, nb = BK.BKVectors.find_G_and_neighbours(kred, bk, mp, kptirr=kptirr)
         except RuntimeError as e:
@@ -244,6 +275,34 @@ def case_neighbours(rec, mesh, nnb, kptirr):
 
 # ------------------------------------------------------------------------------------------------------------
 # (b) shell weights under an arbitrary SVD
+class Norm2:
+    """np.linalg.norm(X) of a symbolic matrix kept as its square; comparison with a non-negative t compares the squares (no sqrt atom)"""
+
+    def __init__(s, sq):
+        s.sq = sq
+
+    def _c(s, o, op):
+        o = SymC.of(o)
+        if o.isconst() and float(o) < 0:
+            return op(1.0, 0.0)
+        return op(s.sq, o * o)               # the harness assumes t >= 1e-8 > 0 for symbolic t
+
+    def __lt__(s, o):
+        return s._c(o, lambda a, b: a < b)
+
+    def __le__(s, o):
+        return s._c(o, lambda a, b: a <= b)
+
+    def __gt__(s, o):
+        return s._c(o, lambda a, b: a > b)
+
+    def __ge__(s, o):
+        return s._c(o, lambda a, b: a >= b)
+
+    def __format__(s, spec):
+        return "sqrt(<symbolic>)"
+
+
 class SvdStub(LinalgProxy):
     """np.linalg.svd(A, full_matrices=False) on symbolic A: fresh unconstrained atoms (mode 'free') or u=1, s=1, vh fresh (mode 'v')"""
 
@@ -251,6 +310,7 @@ class SvdStub(LinalgProxy):
         super().__init__(real)
         s.mode = mode
         s.calls = []
+        s.norms = []
 
     def svd(s, a, full_matrices=True, **kw):
         if not is_sym(a) and s.mode == "real":
@@ -266,6 +326,14 @@ class SvdStub(LinalgProxy):
         s.calls.append((np.asarray(a, dtype=object).copy(), u, sv, vh))
         return u, sv, vh
 
+    def norm(s, x, ord=None, axis=None, **kw):
+        if is_sym(x) and ord is None and axis is None:
+            x = np.asarray(x, dtype=object)
+            r = Norm2(SymC.of((x * x).sum()))
+            s.norms.append(r)
+            return r
+        return super().norm(x, ord=ord, axis=axis, **kw)
+
 
 LATTICES = dict(
     sc=np.eye(3) * 1.7, fcc=np.array([[-1, 0, 1], [0, 1, 1], [-1, 1, 0]]) * 1.1, bcc=np.array([[1, 1, -1], [-1, 1, 1], [1, -1, 1]]) * 0.9,
@@ -274,17 +342,36 @@ LATTICES = dict(
 
 
 def concrete_shells(name, mesh, nshell):
-    """first nshell shells of the mesh vectors of a concrete lattice (real k_to_shells, concrete)"""
-    rl = LATTICES[name]
-    basis = rl / np.array(mesh)[:, None]
-    lim = 2
-    k_latt = np.array([(i, j, k) for i in range(-lim, lim + 1) for j in range(-lim, lim + 1) for k in range(-lim, lim + 1)])
-    sl, sc = BK.BKVectors.k_to_shells(k_latt, k_latt @ basis, kmesh_tol=1e-7)
-    return sl[:nshell], sc[:nshell]
+    """harness-owned shell selection for a concrete lattice (independent of the code under test): mesh vectors of the search box grouped by length;
+    shells are added in order of length while their matrices sum_b b b^T stay linearly independent, until 1 is in their span. nshell<0 drops the last shells."""
+    basis = LATTICES[name] / np.array(mesh)[:, None]
+    box = np.array([v for v in itertools.product(*[range(-2 * m, 2 * m + 1) for m in mesh]) if any(v)])
+    cart = box @ basis
+    ln = np.linalg.norm(cart, axis=1)
+    srt = np.argsort(ln, kind="stable")
+    box, cart, ln = box[srt], cart[srt], ln[srt]
+    brd = [0] + [i for i in range(1, len(ln)) if ln[i] - ln[i - 1] > 1e-7] + [len(ln)]
+    sl, sc, mats = [], [], []
+    for a, b in zip(brd, brd[1:]):
+        M = (cart[a:b].T @ cart[a:b]).reshape(9)
+        if np.linalg.matrix_rank(np.array(mats + [M]), tol=1e-8) < len(mats) + 1:
+            continue
+        mats.append(M)
+        sl.append(box[a:b])
+        sc.append(cart[a:b])
+        w = np.linalg.lstsq(np.array(mats).T, np.eye(3).reshape(9), rcond=None)[0]
+        if np.linalg.norm(np.array(mats).T @ w - np.eye(3).reshape(9)) < 1e-10:
+            break
+    else:
+        raise RuntimeError("harness: no complete shell set")
+    if nshell < 0:
+        sl, sc = sl[:nshell], sc[:nshell]
+    return sl, sc
 
 
-def case_weights(rec, source, nshell, mode, msg_if_fail, mesh=(1, 1, 1)):
+def case_weights(rec, source, nshell, mode, msg_if_fail, mesh=(1, 1, 1), scaled=False):
     lin = SvdStub(np.linalg, mode)
+    pre = None if source == "sym" else concrete_shells(source, mesh, nshell)       # concrete run before the stubs are installed
     shadow([BK], NpProxy(linalg=lin), print=lambda *a, **k: None)
     if source == "sym":
         # symbolic shells: shell i = {+b, -b} (i even) or {+b, -b, +c, -c} (i odd), b, c symbolic cartesian vectors
@@ -295,15 +382,23 @@ def case_weights(rec, source, nshell, mode, msg_if_fail, mesh=(1, 1, 1)):
             sl.append(np.array([[(i + 1) * sg * (m + 1), m, 0] for m in range(1 + i % 2) for sg in (1, -1)]))
         shells_w = None
     else:
-        sl, sc = concrete_shells(source, mesh, nshell)
+        sl, sc = pre
+        nshell = len(sc)
         shells_w = [c.tolist() for c in sc]
         sc = [lift(c) for c in sc]
+        if scaled:                                 # every shell stretched by its own symbolic factor
+            lam = symvec("lam", (nshell,), lo=0.5, hi=2.0)
+            sc = [c * lam[i] for i, c in enumerate(sc)]
+            shells_w = None
     tol = SymC.var("bk_tol", 1e-8, 1e-3)
     ass = [tol.zreal() >= 1e-8, tol.zreal() <= 1e-3]
+    if source != "sym" and scaled:
+        ass += [z for l in lam for z in (l.zreal() >= 0.5, l.zreal() <= 2.0)]
     I3 = lift(np.eye(3))
 
     def body(rec):
         del lin.calls[:]
+        del lin.norms[:]
         rec.witness = lambda env: dict(test="weights", source=source, mesh=list(mesh), nshell=nshell, msg_if_fail=msg_if_fail, tol=env.val(tol),
                                        shells=shells_w or [env.val(np.asarray(c, dtype=object)).tolist() for c in sc], klatt=[np.asarray(l).tolist() for l in sl],
                                        svd=[[env.val(u).tolist(), env.val(s_).tolist(), env.val(vh).tolist()] for _, u, s_, vh in lin.calls])
@@ -332,8 +427,11 @@ def case_weights(rec, source, nshell, mode, msg_if_fail, mesh=(1, 1, 1)):
         # completeness of what is returned
         wk_, bc = np.asarray(wk, dtype=object), np.asarray(bk_cart, dtype=object)
         S = sarr(np.array([[sum((wk_[m] * bc[m, i] * bc[m, j] for m in range(len(wk_))), SymC.of(0)) for j in range(3)] for i in range(3)], dtype=object))
-        resid = lin.norm(S - I3)
-        rec.fact("|| sum_b w_b b b^T - 1 || <= bk_complete_tol on every normal return", resid <= tol, key="get_shell_weights returns weights that violate completeness")
+        tested = lin.norms[0]                     # the residual the code's completeness guard compared with bk_complete_tol
+        D = np.asarray(S - I3, dtype=object)
+        rec.eq("residual tested by the guard == || sum_b w_b b b^T - 1 ||^2 of the returned (wk, bk_cart)", tested.sq, SymC.of((D * D).sum()),
+               key="get_shell_weights returns weights that violate completeness")
+        rec.fact("|| sum_b w_b b b^T - 1 || <= bk_complete_tol on every normal return", tested <= tol, key="get_shell_weights returns weights that violate completeness")
     rec.explore(body, ass)
 
 
@@ -346,6 +444,14 @@ class Lin22c(LinalgProxy):
 
 
 class Np22c(NpProxy):
+    """(c): only kmesh_tol is symbolic, so every allocation stays concrete numpy"""
+
+    def zeros(s, *a, **k):
+        return np.zeros(*a, **k)
+
+    def eye(s, *a, **k):
+        return np.eye(*a, **k)
+
     def array(s, x, dtype=None, **k):
         r = super().array(x, dtype=dtype, **k)
         return r.view(SymArray) if isinstance(r, np.ndarray) and not isinstance(r, SymArray) and r.dtype != object else r
@@ -422,14 +528,18 @@ def cases(tier, seed):
             out.append(Case(f"neighbours mesh={mesh} 2 symbolic b, 2 irreducible k", case_neighbours, dict(mesh=mesh, nnb=2, kptirr=[nk - 1, 0]), timeout=900))
         if nk <= 2 or (not q and nk <= 3):
             out.append(Case(f"neighbours mesh={mesh} 2 symbolic b, all k", case_neighbours, dict(mesh=mesh, nnb=2, kptirr=None), timeout=900))
-    for mode in ("free", "v"):
-        for msg in (False, True):
-            for src, ns, mesh in [("sc", 1, (1, 1, 1)), ("fcc", 1, (2, 2, 2)), ("bcc", 2, (1, 1, 1)), ("hex", 2, (1, 1, 1)), ("ortho", 3, (2, 2, 1)), ("tric", 3, (1, 1, 1)),
-                                  ("sym", 1, (1, 1, 1)), ("sym", 2, (1, 1, 1))] + ([] if q else [("tric", 4, (3, 2, 1)), ("hex", 4, (2, 2, 2)), ("sym", 3, (1, 1, 1))]):
-                if src == "sym" and mode == "free" and ns > 1 and q:
-                    continue
-                out.append(Case(f"weights shells={src}{mesh} nshell={ns} svd={mode} msg_if_fail={msg}", case_weights,
-                                dict(source=src, nshell=ns, mode=mode, msg_if_fail=msg, mesh=mesh), timeout=900))
+    wcases = [("sc", 0, (1, 1, 1), "free", False), ("sc", 0, (1, 1, 1), "free", True), ("fcc", 0, (2, 2, 2), "free", False), ("sym", 1, (1, 1, 1), "free", True)]
+    wcases += [(n, 0, m, "v", f) for n, m, f in [("sc", (2, 2, 2), True), ("fcc", (2, 2, 2), False), ("bcc", (1, 1, 1), False), ("hex", (2, 2, 1), True), ("ortho", (2, 2, 1), False),
+                                                  ("tric", (1, 1, 1), False)]]
+    wcases += [("ortho", -1, (1, 1, 1), "v", True), ("hex", -1, (1, 1, 1), "v", False), ("hex*", 0, (1, 1, 1), "v", False), ("ortho*", 0, (2, 2, 1), "v", True)]
+    if not q:
+        wcases += [("bcc", 0, (1, 1, 1), "free", True), ("tric", 0, (3, 2, 1), "v", True), ("tric", -1, (1, 1, 1), "v", True), ("tric*", 0, (1, 1, 1), "v", False)]
+    for src, ns, mesh, mode, msg in wcases:
+        what = "complete set" if ns == 0 else (f"last {-ns} shell(s) dropped" if ns < 0 else f"{ns} symbolic shell(s)")
+        if src.endswith("*"):
+            what += ", each shell scaled by a symbolic factor in [0.5,2]"
+        out.append(Case(f"weights shells={src}{mesh} ({what}) svd={mode} msg_if_fail={msg}", case_weights,
+                        dict(source=src.rstrip("*"), nshell=ns, mode=mode, msg_if_fail=msg, mesh=mesh, scaled=src.endswith("*")), timeout=900))
     for name in LATTICES:
         for mesh in [(1, 1, 1), (2, 2, 2), (2, 2, 1) if name in ("sc", "hex", "ortho") else (3, 2, 1)] + ([] if q else [(3, 3, 3), (4, 4, 2)]):
             out.append(Case(f"shells lattice={name} mesh={mesh} symbolic kmesh_tol", case_shells, dict(name=name, mesh=mesh), timeout=1500))
